@@ -7,6 +7,7 @@ import ALV.Lemmas.C06Call
 import ALV.Lemmas.C06Gain
 import ALV.Lemmas.C06Algebra
 import ALV.Lemmas.C06TwoCalls
+import ALV.Lemmas.C06TwoCallsFull
 import ALV.Lemmas.C06Expr
 import ALV.Common.Audit
 
@@ -478,16 +479,41 @@ theorem no_gain_raises (num rest : Terms (Coef K)) (mem : Mem K) (zero : K) (xs 
     callTV num rest mem zero xs = .error .zeroDivision :=
   callTV_no_gain num rest mem zero xs hcn hpos
 
-/-- PENDING (not proved): the two-call contract `specCallTwice` from the raw constructor pairs equals
-`callTwice` on the normalised object for EVERY history (also when a coefficient stream ended the
-first output).  Proved above: both are the same `tvspec … |xs1| …` when the first output was ended
-by its input (C06.10a', C06.10b), the spec side being `continued_eq_dropped`. -/
-def callTwice_eq_specCallTwice_PENDING : Prop :=
-  ∀ (numPairs denPairs : List (Int × Coef K)) (mem1 mem2 : Mem K) (zero1 zero2 : K) (xs1 xs2 : List K)
-    (n0 d0 : Terms (Coef K)), normalise (mkPoly numPairs) (mkPoly denPairs) = .ok (n0, d0) →
+/-- **C06.10e** (`callTwice_eq_specCallTwice`, the two-call contract for EVERY history): for every
+pair of raw constructor arguments and the filter object `__init__` makes of them, for every first
+and second memory / zero value / input, the code-shaped two-call model (`callTwice`: the object as the
+first call leaves it — iterators where the generated loop stopped, the failed last evaluation
+included — called again) shows exactly what the contract `specCallTwice` says on the raw pairs:
+a refused call is refused again with the same error; if the first output was ended by its input, the
+second call computes the difference equation with every coefficient stream `|xs1|` items further;
+if the first output was ended by a coefficient stream, that stream has ended and the second output is
+empty at once (constant gain: the empty iterator is the one the failed `next` left; Stream gain: the
+ended stream had exactly `|ys|` items). -/
+theorem callTwice_eq_specCallTwice (numPairs denPairs : List (Int × Coef K)) (mem1 mem2 : Mem K)
+    (zero1 zero2 : K) (xs1 xs2 : List K) (n0 d0 : Terms (Coef K))
+    (hn : normalise (mkPoly numPairs) (mkPoly denPairs) = .ok (n0, d0)) :
     ((callTwice n0 d0 mem1 zero1 xs1 mem2 zero2 xs2).1.map Prod.fst,
      (callTwice n0 d0 mem1 zero1 xs1 mem2 zero2 xs2).2.map Prod.fst)
-      = specCallTwice numPairs denPairs mem1 zero1 xs1 mem2 zero2 xs2
+      = specCallTwice numPairs denPairs mem1 zero1 xs1 mem2 zero2 xs2 :=
+  callTwice_eq_specCallTwice_full numPairs denPairs mem1 mem2 zero1 zero2 xs1 xs2 n0 d0 hn
+
+/-- **C06.10f** (`second_call_after_ended_stream`): on the object — any normalised causal filter
+object, any gain: when a coefficient stream ended the first output, the second output is empty. -/
+theorem second_call_after_ended_stream (num den : Terms (Coef K)) (mem1 mem2 : Mem K) (zero1 zero2 : K)
+    (xs1 xs2 : List K)
+    (hnum : List.Pairwise (fun x y : Int × Coef K => x.1 < y.1) num)
+    (hden : List.Pairwise (fun x y : Int × Coef K => x.1 < y.1) den)
+    (hstored : ∀ kv ∈ num ++ den, kv.2 ≠ Coef.const 0) (hc : ∀ kv ∈ num ++ den, 0 ≤ kv.1)
+    (h0 : coefAt den 0 ≠ Coef.const 0) (ys : List K) (its : Its K)
+    (hr : callTV num den mem1 zero1 xs1 = .ok (ys, its)) (hne : ys.length ≠ xs1.length) :
+    (callTwice num den mem1 zero1 xs1 mem2 zero2 xs2).2.map Prod.fst = .ok [] := by
+  cases h : coefAt den 0 with
+  | const g =>
+    exact callTwice_const_short num den mem1 mem2 zero1 zero2 xs1 xs2 g ⟨hnum, hden, hstored, hc, h0⟩ h
+      ys its hr hne
+  | strm gs =>
+    exact callTwice_gain_short num den mem1 mem2 zero1 zero2 xs1 xs2 gs ⟨hnum, hden, hstored, hc, h0⟩ h
+      ys its hr hne
 
 /-! ### C06.6 filter arithmetic acts on coefficient sequences element by element -/
 
@@ -852,6 +878,21 @@ example : specCallTwice [((0 : Int), Coef.const (1 : Rat)), (1, Coef.const 1)]
       [(0, Coef.strm [2, 3, 4, 5, 6, 7, 8, 9]), (1, Coef.strm [1, 1, 1, 1, 1, 1, 1, 1])]
       Mem.none 0 [1, 1, 1] Mem.none 0 [1, 1, 1]
     = (.ok [1/2, 1/2, 3/8], .ok [1/5, 3/10, 17/70]) := by decide +kernel
+/-- C06.10e/f: `(1 + Stream(1,2) z^-1) / 2` called on four samples (the stream ends the output after
+two), then again: empty — model and contract -/
+example : ((callTwice [((0 : Int), Coef.const (1 : Rat)), (1, Coef.strm [1, 2])] [(0, Coef.const 2)]
+      Mem.none 0 [1, 1, 1, 1] Mem.none 0 [1, 1]).1.map Prod.fst,
+     (callTwice [((0 : Int), Coef.const (1 : Rat)), (1, Coef.strm [1, 2])] [(0, Coef.const 2)]
+      Mem.none 0 [1, 1, 1, 1] Mem.none 0 [1, 1]).2.map Prod.fst)
+    = (.ok [1/2, 3/2], .ok []) := by decide +kernel
+example : specCallTwice [((0 : Int), Coef.const (1 : Rat)), (1, Coef.strm [1, 2])] [(0, Coef.const 2)]
+      Mem.none 0 [1, 1, 1, 1] Mem.none 0 [1, 1] = (.ok [1/2, 3/2], .ok []) := by decide +kernel
+example := callTwice_eq_specCallTwice [((0 : Int), Coef.const (1 : ℚ)), (1, Coef.strm [1, 2])] [(0, Coef.const 2)]
+  Mem.none Mem.none 0 0 [1, 1, 1, 1] [1, 1] [((0 : Int), Coef.const 1), (1, Coef.strm [1, 2])] [(0, Coef.const 2)]
+  (by decide +kernel)
+example := second_call_after_ended_stream [((0 : Int), Coef.const (1 : ℚ)), (1, Coef.strm [1, 2])] [(0, Coef.const 2)]
+  Mem.none Mem.none 0 0 [1, 1, 1, 1] [1, 1] (by simp) (by simp) (by simp) (by simp) (by simp [coefAt])
+  [1/2, 3/2] ⟨[[], []], []⟩ (by decide +kernel) (by simp)
 /-- C06.10c / d: a non-causal object refuses twice; an object whose gain was deleted raises -/
 example := refused_call_leaves_no_trace [((-1 : Int), Coef.strm [(1 : ℚ)])] [(0, Coef.const 1)] Mem.none Mem.none
   0 0 [1] [1] .valueError (noncausal _ _ _ _ _ ⟨((-1 : Int), Coef.strm [1]), by simp, by simp⟩)
